@@ -98,6 +98,34 @@ Extract(mode, class) ==
               [] OTHER               -> {"decode_err", "value"}                        \* another envelope: not specified
 HandlerRuns(x) == x \in {"value", "none", "nodata"}
 
+(* ---- sub-messages on a real chain (Chain.tla) ------------------------------ *)
+(* what the generated builder wraps and what the target does with it:          *)
+(*   kind  "exec"  WasmMsg::Execute to the callee contract                      *)
+(*         "inst"  WasmMsg::Instantiate of the callee's code                    *)
+(*         "bank"  BankMsg::Send out of the caller's balance                    *)
+(*   mode  what the target returns: no data, JSON of the declared type (short,  *)
+(*         or longer than 127 bytes: a two-byte length in the envelope), bytes  *)
+(*         that are no JSON, present-but-empty data, or a failure                *)
+ChainKinds == {"exec", "inst", "bank"}
+ChainModes(kind) == IF kind = "bank" THEN {"nodata", "fail"}
+                    ELSE IF kind = "inst" THEN {"nodata", "good", "fail"}
+                    ELSE {"nodata", "good", "long", "badjson", "emptydata", "fail"}
+ChainResult(mode) == IF mode = "fail" THEN "err" ELSE "ok"
+(* the data class of the reply the chain makes (the chain wraps the target's data into the response envelope of the message kind) *)
+ChainClass(kind, mode) ==
+    CASE mode = "fail"  -> "absent"
+      [] kind = "bank"  -> "absent"
+      [] kind = "inst"  -> "good_inst"          \* an instantiate response always carries the envelope (address, data or none)
+      [] mode = "nodata"    -> "absent"
+      [] mode = "emptydata" -> "empty_env"      \* the envelope of empty data is the empty byte string
+      [] mode = "badjson"   -> "bad_json"
+      [] OTHER              -> "good"
+(* the chain replies only for the outcomes the sub-message asked for *)
+ChainRepliesFor(on, result) == on = "always" \/ (on = "success" /\ result = "ok") \/ (on = "error" /\ result = "err")
+ChainStimOf(p) ==
+    IF Legacy(p) THEN <<>>
+    ELSE SetToSeq(UNION {{[h |-> h, kind |-> k, mode |-> m] : h \in AllHandlers(p), m \in ChainModes(k)} : k \in ChainKinds})
+
 (* ---- order independence (C14) -------------------------------------------- *)
 Obs(p) ==
     [valid |-> ValidTable(p),
